@@ -86,15 +86,9 @@ impl WorldExec {
         } else {
             (Fe::Shared(Box::new(AssetCache::with_source(src.clone()))), mode == "hot")
         };
-        // the cache's reloader thread shows up at its first `select.ready()`
-        let mut hr_thread = None;
-        if has_reloader {
-            let t0 = std::time::Instant::now();
-            while hr_thread.is_none() && t0.elapsed().as_secs() < 10 {
-                hr_thread = HR_THREADS.lock().unwrap_or_else(|e| e.into_inner()).keys().copied().find(|k| !known.contains(k));
-                std::thread::yield_now();
-            }
-        }
+        // identity of the cache's reloader thread (verif hook)
+        let _ = &known;
+        let hr_thread = match &fe { Fe::Shared(c) => c.verif_reloader_id().map(|i| i as u64), _ => None };
         WorldExec { src, fe, via_any, has_reloader, handles: BTreeMap::new(), next_h: 0, watchers: BTreeMap::new(), hr_thread, leak: false, static_mode: false, unspecified: false, universe_ids: crate::eng_cache::IDS.iter().map(|s| s.to_string()).chain(["".to_string(), "d".to_string(), "d.e".to_string()]).collect() }
     }
 
@@ -105,8 +99,9 @@ impl WorldExec {
         let t0 = std::time::Instant::now();
         let mut stable = 0;
         while t0.elapsed().as_secs() < 20 {
-            let quiet = tx.verif_pending() == 0 && c.verif_msgs_pending() == Some(0)
-                && HR_THREADS.lock().unwrap_or_else(|e| e.into_inner()).get(&t).copied() == Some(true);
+            let state = assets_manager::verif::reloader_in_ready(t as usize);
+            if state.is_none() && t0.elapsed().as_millis() > 200 { return false; }   // the reloader thread is gone
+            let quiet = tx.verif_pending() == 0 && c.verif_msgs_pending() == Some(0) && state == Some(true);
             if quiet { stable += 1; if stable >= 2 { return true; } } else { stable = 0; }
             std::thread::yield_now();
         }
